@@ -47,6 +47,55 @@ def truthy(node) -> bool:
     return True  # a non-constant expression may be true
 
 
+def loaders_keep_every_instance(ctx: Ctx):
+    """C17.h / C17.i / C17.j
+    h) no DataLoader built by the library drops the final partial batch: `drop_last` is absent or the literal False at every
+       `DataLoader(...)` call under rl4co/ (a shuffled loader with drop_last silently discards a different set of instances,
+       wrapped baseline values included, every epoch);
+    i) the greedy-rollout baseline value attached to item i is the reward of the FROZEN baseline policy: `_update_policy` takes a
+       deep copy (`copy.deepcopy`) of the policy -- a shallow `copy.copy` shares every parameter with the policy being trained,
+       so the values attached at the start of an epoch are no longer what `self.policy` would give later in that epoch;
+    j) the values handed to `dataset.add_key` keep their leading instance axis: no dimension-less `.squeeze()` between the rollout
+       and `add_key` (a one-instance set would attach a 0-d tensor)."""
+    n = 0
+    for name, mi in sorted(ctx.repo.modules.items()):
+        if not name.startswith("rl4co."):
+            continue
+        for c in ast.walk(mi.tree):
+            if isinstance(c, ast.Call) and ((isinstance(c.func, ast.Name) and c.func.id == "DataLoader") or (isinstance(c.func, ast.Attribute) and c.func.attr == "DataLoader")):
+                n += 1
+                dl = [k.value for k in c.keywords if k.arg == "drop_last"]
+                ok = not dl or (isinstance(dl[0], ast.Constant) and dl[0].value is False)
+                ctx.ob("C17.h", f"{mi.relpath}:{c.lineno}:DataLoader-keeps-the-last-batch", ok, f"{mi.relpath}:{c.lineno}",
+                       "drop_last is off" if ok else f"drop_last={ast.unparse(dl[0])}: the final partial batch of the set is not delivered", construct=f"{mi.relpath}:DataLoader:drop_last")
+    if n < 5:
+        raise AnalysisError(f"DataLoader construction sites lost: {n} < 5")
+    rb = ctx.repo.get_class("rl4co/models/rl/reinforce/baselines.py", "RolloutBaseline")
+    fu = rb.methods.get("_update_policy")
+    if fu is None:
+        raise AnalysisError("RolloutBaseline._update_policy not found")
+    ctx.fn(fu)
+    deep = None
+    for st in ast.walk(fu.node):
+        if isinstance(st, ast.Assign) and any(isinstance(t, ast.Attribute) and isinstance(t.value, ast.Name) and t.value.id == "self" and t.attr == "policy" for t in st.targets):
+            calls = [x for x in ast.walk(st.value) if isinstance(x, ast.Call) and ((isinstance(x.func, ast.Attribute) and x.func.attr in ("deepcopy", "copy") and isinstance(x.func.value, ast.Name) and x.func.value.id == "copy")
+                                                                                 or (isinstance(x.func, ast.Name) and x.func.id in ("deepcopy", "copy")))]
+            deep = bool(calls) and all((x.func.attr if isinstance(x.func, ast.Attribute) else x.func.id) == "deepcopy" for x in calls)
+    if deep is None:
+        raise AnalysisError("RolloutBaseline._update_policy: assignment of self.policy not found")
+    ctx.ob("C17.i", "RolloutBaseline._update_policy:frozen-copy", deep, fu.loc,
+           "self.policy = copy.deepcopy(policy)" if deep else "self.policy is not a deep copy of the policy: the `frozen` baseline shares its parameters with the policy being trained",
+           construct="RolloutBaseline._update_policy:policy-copy")
+    fw = rb.methods.get("wrap_dataset")
+    if fw is None:
+        raise AnalysisError("RolloutBaseline.wrap_dataset not found")
+    ctx.fn(fw)
+    sq = [x.lineno for x in ast.walk(fw.node) if isinstance(x, ast.Call) and isinstance(x.func, ast.Attribute) and x.func.attr == "squeeze" and not x.args and not x.keywords]
+    ctx.ob("C17.j", "RolloutBaseline.wrap_dataset:values-keep-the-instance-axis", not sq, fw.loc,
+           "no dimension-less squeeze on the attached values" if not sq else f"dimension-less .squeeze() at line(s) {sq}: for a set of ONE instance the attached tensor is 0-d, not [1]",
+           construct="RolloutBaseline.wrap_dataset:squeeze-all")
+
+
 def run(ctx: Ctx):
     sites = []
     for mi in ctx.repo.modules.values():
@@ -375,6 +424,7 @@ def run(ctx: Ctx):
     epoch_end_order(ctx)
     fetch_protocol_agrees(ctx)
     baseline_rollouts_in_eval_mode(ctx)
+    loaders_keep_every_instance(ctx)
 
 
 def epoch_end_order(ctx: Ctx):
